@@ -5,5 +5,7 @@ mkdir -p .work evidence
 command -v tlc >/dev/null || { echo "tlc not on PATH"; exit 1; }
 [ -x /venv/bin/python ] || { echo "/venv/bin/python missing"; exit 1; }
 /venv/bin/python -c "import hpack, hyperframe" || { echo "hpack/hyperframe not importable"; exit 1; }
+command -v apalache-mc >/dev/null || { echo "apalache-mc not on PATH (needed by the C05 check)"; exit 1; }
+/venv/bin/python -c "import pytest" || { echo "pytest not importable (needed to record the repository's tests)"; exit 1; }
 chmod +x check 2>/dev/null
 echo "setup ok"
